@@ -6,6 +6,7 @@ import (
 	"hash/fnv"
 	"reflect"
 	"strings"
+	"unsafe"
 )
 
 var NoAttachedGoStruct = fmt.Errorf("hash has no attach Go struct")
@@ -721,6 +722,10 @@ func (h *SexpHash) FillHashFromShadow(env *Zlisp, src interface{}) error {
 		goField := vaSrc
 		for _, p := range det.EmbedPath {
 			goField = goField.Field(p.ChildFieldNum)
+		}
+		if !goField.CanInterface() && goField.CanAddr() {
+			// an unexported field: read it the way SexpToGoStructs writes it
+			goField = reflect.NewAt(goField.Type(), unsafe.Pointer(goField.UnsafeAddr())).Elem()
 		}
 		val, err := fillHashHelper(goField.Interface(), 0, env, false)
 		if err != nil {
